@@ -19,6 +19,7 @@ mod locks;
 mod payload;
 mod prog;
 mod sched;
+mod topicp;
 
 use std::cell::RefCell;
 use vcore::{Check, Ctx, EvidenceMeta, Failure, Replay};
@@ -59,6 +60,10 @@ fn run_replay(r: &Replay) -> Option<Failure> {
       let s: locks::Scenario = vcore::from_value(&r.scenario);
       locks::execute(&s).err()
     }
+    "E3-topic" => {
+      let s: topicp::Scenario = vcore::from_value(&r.scenario);
+      topicp::execute(&s).err()
+    }
     // replays of engines served by another binary are not ours to run
     _ => None,
   }
@@ -94,6 +99,8 @@ fn main() {
       let _ = GLOBAL_PROPERTY.set(args.get(3).cloned().unwrap_or_else(|| "C05".into()));
       let r = if args.get(4).map(|s| s == "locks").unwrap_or(false) {
         locks::execute(&serde_json::from_str(&txt).expect("decode")).map(|_| ())
+      } else if args.get(4).map(|s| s == "topic").unwrap_or(false) {
+        topicp::execute(&serde_json::from_str(&txt).expect("decode")).map(|_| ())
       } else {
         prog::execute(&serde_json::from_str(&txt).expect("decode")).map(|_| ())
       };
@@ -121,7 +128,23 @@ fn main() {
           check.absorb("E3-locks", out);
           rule = "generated programs of 2-4 threads over HybridMutex / HybridRwLock (lock/try_lock/read/write/try_*/async acquire with cancellation) x generated schedules; non-trivial = two threads contended for the lock (a thread found it held) in at least one schedule; distinct = hash of the program".into();
         }
+        "C08" => {
+          let cases = std::env::var("VERIF_CASES").ok().and_then(|s| s.parse().ok()).unwrap_or(ctx.tier.pick(2_400u64, 100_000u64));
+          let scheds = ctx.tier.pick(48usize, 200usize);
+          vcore::set_current_engine("E3-topic");
+          let out = vcore::drive(&ctx, &check.findings, 12, cases, move || topicp::scenario_strategy(scheds), |s| topicp::execute(s));
+          check.absorb("E3-topic", out);
+          rule = "generated topic programs: 1-2 publisher threads (original sender + clone, sync and async handle forms) and 1-3 receiver threads each changing its own subscriptions, receiving (blocking, try, timed, cancelled futures), cloning, closing or draining, x generated schedules; non-trivial = a publish overlapped a subscription change of a receiver (subscribe / unsubscribe / clone / close in progress during the send) or a mailbox was possibly full; distinct = hash of the program".into();
+        }
         _ => {
+          if (prop == "C05" || prop == "C04") && std::env::var("VERIF_FLAVOUR").is_err() {
+            // topic mailboxes park and disconnect too (hook H1c)
+            let cases = std::env::var("VERIF_CASES").ok().and_then(|s| s.parse().ok()).unwrap_or(ctx.tier.pick(600u64, 25_000u64));
+            let scheds = ctx.tier.pick(48usize, 200usize);
+            vcore::set_current_engine("E3-topic");
+            let out = vcore::drive(&ctx, &check.findings, 12, cases, move || topicp::scenario_strategy(scheds), |s| topicp::execute(s));
+            check.absorb("E3-topic", out);
+          }
           let fl = flavours_env(prog::flavours_for(&prop));
           let cases = std::env::var("VERIF_CASES").ok().and_then(|s| s.parse().ok()).unwrap_or(ctx.tier.pick(2_400u64, 100_000u64));
           let scheds = ctx.tier.pick(48usize, 200usize);
